@@ -17,6 +17,7 @@ import (
 	"time"
 
 	"github.com/anishathalye/porcupine"
+	"github.com/whatap/golib/util/hmap"
 	"github.com/whatap/golib/util/queue"
 	"pgregory.net/rapid"
 	"verif/pbt"
@@ -144,7 +145,7 @@ var sweepItems = func() []sweepItem {
 	var out []sweepItem
 	for _, ct := range ctypes {
 		for _, m := range methodNames(ct) {
-			for _, st := range []string{"empty", "three", "grown", "full"} {
+			for _, st := range []string{"empty", "three", "grown", "full", "self-arg"} {
 				out = append(out, sweepItem{ct.Name, m, st})
 			}
 		}
@@ -165,7 +166,7 @@ func runSweepItem(i uint64) (bool, error) {
 	ct := ctypeByName[it.Type]
 	self := reflect.ValueOf(ct.New())
 	switch it.State {
-	case "three":
+	case "three", "self-arg":
 		populate(self, ct, 3)
 	case "grown":
 		populate(self, ct, 200)
@@ -186,7 +187,20 @@ func runSweepItem(i uint64) (bool, error) {
 	if it.State == "full" {
 		k = 7 // a key that is not present: the call has to make room
 	}
-	out := guardedCall(func() []reflect.Value { return m.Call(callArgs(m, k, 5, self, ct)) })
+	args := callArgs(m, k, 5, self, ct)
+	if it.State == "self-arg" {
+		// the structure itself where another structure of its type is expected (m.PutAll(m), a.Merge(a) ...)
+		aliased := false
+		for i := range args {
+			if args[i].Type() == self.Type() {
+				args[i], aliased = self, true
+			}
+		}
+		if !aliased {
+			return false, nil
+		}
+	}
+	out := guardedCall(func() []reflect.Value { return m.Call(args) })
 	if out.blocked != "" {
 		return true, fmt.Errorf("%s.%s on a structure no other goroutine touches (state %s) never returns: it blocks on the structure's own lock %s", it.Type, it.Method, it.State, out.blocked)
 	}
@@ -206,7 +220,7 @@ func runSweepItem(i uint64) (bool, error) {
 }
 
 var sweepDeadlock = pbt.RegisterSweep(pbt.Sweep{Prop: "C10", Name: "method-self-deadlock",
-	Rule: "exhaustive over (type, exported method, state) for the 17 hash map/set types, the linked list and the two request queues (reflection over the method sets; states empty / 3 elements / 200 elements / bounded and full): the method is invoked with generated arguments in its own goroutine on an instance nobody else touches, followed by a locking probe (Clear); a call found parked on a sync primitive inside golib in three consecutive goroutine-stack samples is a self-deadlock (no wall-clock verdict; a blocking dequeue on an empty queue is not issued); every (type, method, state) is a distinct non-trivial case",
+	Rule: "exhaustive over (type, exported method, state) for the 17 hash map/set types, the linked list and the two request queues (reflection over the method sets; states empty / 3 elements / 200 elements / bounded and full / 3 elements with the structure itself passed wherever a structure of its own type is expected): the method is invoked with generated arguments in its own goroutine on an instance nobody else touches, followed by a locking probe (Clear); a call found parked on a sync primitive inside golib in three consecutive goroutine-stack samples is a self-deadlock (no wall-clock verdict; a blocking dequeue on an empty queue is not issued); every (type, method, state) is a distinct non-trivial case",
 	N:    uint64(len(sweepItems)), Run: runSweepItem,
 	Show: func(i uint64) interface{} { return sweepItems[i] }})
 
@@ -918,13 +932,92 @@ var specBlock = pbt.Register(pbt.Spec[BlockCase]{
 
 func TestBlockingGetStress(t *testing.T) { specBlock.Check(t) }
 
+// ---- 3b''. two structures handed to each other ---------------------------------------------------------------------
+
+type CrossCase struct {
+	N      int `json:"n"`      // keys held by both maps (the same keys: copying changes values only, never the structure)
+	Rounds int `json:"rounds"` // PutAll calls per goroutine
+}
+
+func runCross(c CrossCase) *pbt.Result {
+	a, b := hmap.NewIntKeyMapDefault(), hmap.NewIntKeyMapDefault()
+	for i := 0; i < c.N; i++ {
+		a.Put(int32(i), i)
+		b.Put(int32(i), -i)
+	}
+	var progress [2]atomic.Int64
+	var gids [2]atomic.Int64
+	var wg sync.WaitGroup
+	run := func(w int, dst, src *hmap.IntKeyMap) {
+		defer wg.Done()
+		gids[w].Store(curGoid())
+		for r := 0; r < c.Rounds; r++ {
+			dst.PutAll(src)
+			progress[w].Add(1)
+		}
+	}
+	wg.Add(2)
+	go run(0, a, b)
+	go run(1, b, a)
+	done := make(chan struct{})
+	go func() { wg.Wait(); close(done) }()
+	stuck := 0
+	last := [2]int64{-1, -1}
+	for {
+		select {
+		case <-done:
+			if a.Size() != c.N || b.Size() != c.N {
+				return pbt.Fail("after a.PutAll(b) and b.PutAll(a) ran side by side over the same %d keys the maps hold %d and %d keys", c.N, a.Size(), b.Size())
+			}
+			return &pbt.Result{NT: true, Classes: []string{"type=IntKeyMap"}}
+		case <-time.After(100 * time.Millisecond):
+		}
+		cur := [2]int64{progress[0].Load(), progress[1].Load()}
+		if cur != last {
+			last, stuck = cur, 0
+			continue
+		}
+		// no progress: are both workers parked on a lock inside golib?
+		both := true
+		var stacks []string
+		for w := 0; w < 2; w++ {
+			st, stack := goroutineState(gids[w].Load())
+			if !blockedState(st) || !strings.Contains(stack, "github.com/whatap/golib/") {
+				both = false
+			}
+			stacks = append(stacks, trim(stack, 8))
+		}
+		if both {
+			stuck++
+		} else {
+			stuck = 0
+		}
+		if stuck >= 3 {
+			return pbt.Fail("a.PutAll(b) and b.PutAll(a), run side by side, are both parked on a lock inside golib and nothing else can release them (lock-order deadlock) after %v rounds:\n%s\n--\n%s", cur, stacks[0], stacks[1])
+		}
+	}
+}
+
+var specCross = pbt.Register(pbt.Spec[CrossCase]{
+	Prop: "C10", Name: "cross-putall",
+	Rule:  "the only operation of the covered types that takes a second structure of its own type, IntKeyMap.PutAll: two maps holding the same 50-3000 keys are copied into each other by two goroutines for 20-400 rounds each (values change, the structure of neither map does); the calls must all return - two workers found parked on a lock inside golib in three consecutive samples without progress are a lock-order deadlock - and both maps keep exactly their keys; every case is non-trivial; distinct by case",
+	Quick: 24, Thorough: 600,
+	Draw: func(t *rapid.T) CrossCase {
+		return CrossCase{N: rapid.IntRange(50, 3000).Draw(t, "n"), Rounds: rapid.IntRange(20, 400).Draw(t, "rounds")}
+	},
+	Run: runCross,
+})
+
+func TestCrossPutAll(t *testing.T) { specCross.Check(t) }
+
 // ---- 3c. growth stress: concurrent insertions of distinct keys across several table growths -----------------------
 
 type GrowthCase struct {
 	Type      string `json:"type"`
 	Producers int    `json:"producers"`
-	N         int    `json:"n"`       // distinct elements inserted by each producer
-	Readers   int    `json:"readers"` // goroutines looking up keys while the table grows
+	N         int    `json:"n"`                 // distinct elements inserted by each producer
+	Readers   int    `json:"readers"`           // goroutines looking up keys while the table grows
+	Sorters   int    `json:"sorters,omitempty"` // goroutines calling Sort(comparator) in a loop meanwhile (types that have it)
 }
 
 func growthTypes() []string {
@@ -995,6 +1088,28 @@ func runGrowth(c GrowthCase) *pbt.Result {
 			}(r)
 		}
 	}
+	sorted := false
+	if sm := self.MethodByName("Sort"); sm.IsValid() && sm.Type().NumIn() == 1 && sm.Type().In(0).Kind() == reflect.Func {
+		for r := 0; r < c.Sorters; r++ {
+			sorted = true
+			rwg.Add(1)
+			go func() {
+				defer rwg.Done()
+				for gate.Load() == 0 {
+				}
+				for !stop.Load() {
+					func() {
+						defer func() {
+							if rr := recover(); rr != nil {
+								panics.Store(fmt.Sprintf("Sort: %v", rr), true)
+							}
+						}()
+						sm.Call(callArgs(sm, 0, 0, self, ct))
+					}()
+				}
+			}()
+		}
+	}
 	done := make(chan struct{})
 	go func() { wg.Wait(); stop.Store(true); rwg.Wait(); close(done) }()
 	gate.Store(1)
@@ -1026,16 +1141,20 @@ func runGrowth(c GrowthCase) *pbt.Result {
 	if res := classifyNewRaces(c.Type); res != nil {
 		return res
 	}
-	return &pbt.Result{NT: total > 76 && c.Producers >= 2, Classes: []string{"type=" + c.Type, fmt.Sprintf("producers=%d", c.Producers)}}
+	classes := []string{"type=" + c.Type, fmt.Sprintf("producers=%d", c.Producers)}
+	if sorted {
+		classes = append(classes, "sorted-meanwhile")
+	}
+	return &pbt.Result{NT: total > 76 && c.Producers >= 2, Classes: classes}
 }
 
 var specGrowth = pbt.Register(pbt.Spec[GrowthCase]{
 	Prop: "C10", Name: "growth-stress",
-	Rule:  "2-4 goroutines insert disjoint ranges of fresh keys (40..400 each, so the bucket table grows one to three times while others insert) into one instance while 0-2 reader goroutines look keys up; history invariants sound for any schedule: nothing panics, Size() equals the number of insertions, every inserted key is found afterwards, structural audit; in the -race group every new race-detector report is classified as in race-detector; non-trivial = more than 76 elements from >= 2 producers; distinct by case",
+	Rule:  "2-4 goroutines insert disjoint ranges of fresh keys (40..400 each, so the bucket table grows one to three times while others insert) into one instance while 0-2 reader goroutines look keys up and, in half of the cases, another goroutine keeps calling Sort with a comparator (the 14 types that have one); history invariants sound for any schedule: nothing panics, Size() equals the number of insertions, every inserted key is found afterwards, structural audit; in the -race group every new race-detector report is classified as in race-detector; non-trivial = more than 76 elements from >= 2 producers; distinct by case",
 	Quick: 160, Thorough: 8000,
 	Draw: func(t *rapid.T) GrowthCase {
 		return GrowthCase{Type: rapid.SampledFrom(growthTypes()).Draw(t, "type"), Producers: rapid.IntRange(2, 4).Draw(t, "producers"),
-			N: rapid.IntRange(40, pbt.Pick(200, 400)).Draw(t, "n"), Readers: rapid.IntRange(0, 2).Draw(t, "readers")}
+			N: rapid.IntRange(40, pbt.Pick(200, 400)).Draw(t, "n"), Readers: rapid.IntRange(0, 2).Draw(t, "readers"), Sorters: rapid.IntRange(0, 1).Draw(t, "sorters")}
 	},
 	Run: runGrowth,
 })
